@@ -66,7 +66,8 @@ Stores == [
              R("mo.occs", "abs", 7, "au"), R("mo.energies", "abs", 6, "au") >>,
   wfx |-> << X("atnums"), R("atcoords", "rel", 12, "au"), R("atcorenums", "rel", 12, "au"), A(X("title"), "defaulted"),
              R("energy", "rel", 12, "au"), R("mo.occs", "rel", 12, "au"), R("mo.energies", "rel", 12, "au"),
-             R("atgradient", "rel", 12, "au") >> ]
+             R("atgradient", "rel", 12, "au"), X("extra.num_core_electrons"), R("extra.nuc_viral", "rel", 12, "au"),
+             R("extra.full_virial_ratio", "rel", 12, "au") >> ]
 FormatNames == DOMAIN Stores
 Entry(fmt, k) == LET es == Stores[fmt] IN es[CHOOSE i \in 1..Len(es) : es[i].key = k]
 Keys(fmt) == {Stores[fmt][i].key : i \in 1..Len(Stores[fmt])}
